@@ -70,7 +70,10 @@ func (rw *RollingWindow) Reduce(fn func(b *Bucket)) {
 }
 
 func (rw *RollingWindow) updateOffset() {
-	span := rw.span()
+	// 只读一次时钟：span 与 lastTime 必须基于同一时刻，
+	// 否则桶边界落在两次读取之间时，lastTime 会比 offset 多前进一个间隔。
+	now := timex.Now()
+	span := rw.spanAt(now)
 	if span <= 0 {
 		return
 	}
@@ -82,13 +85,17 @@ func (rw *RollingWindow) updateOffset() {
 	}
 
 	rw.offset = (offset + span) % rw.size
-	now := timex.Now()
 	//对齐间隔时间边界
 	rw.lastTime = now - (now-rw.lastTime)%rw.interval
 }
 
 func (rw *RollingWindow) span() int {
-	offset := int(timex.Since(rw.lastTime) / rw.interval)
+	return rw.spanAt(timex.Now())
+}
+
+// spanAt 返回时刻 now 距上次对齐时间经过的桶数（不超过 size）。
+func (rw *RollingWindow) spanAt(now time.Duration) int {
+	offset := int((now - rw.lastTime) / rw.interval)
 	if 0 <= offset && offset < rw.size {
 		return offset
 	}
